@@ -392,6 +392,12 @@ def rule_compose_coerce(P):
                 ok2 = norm(n.value) == f"{p}.to_fst()" and any(x == f"isinstance({p}, FST) [neg]" for x in facts)
     r.add(f, n1, ok1, "" if ok1 else "string/tuple operands are not coerced with FST.from_string(·, self.R) under the isinstance test")
     r.add(f, n2, ok2, "" if ok2 else "acceptor operands are not coerced with to_fst() under `not isinstance(·, FST)`")
+    # the composed grammar's vocabulary is the machine's output alphabet without ε
+    sp = [n for n in walk_live(f.node) if isinstance(n, ast.Call) and W.call_name(n) == "spawn"]
+    vkw = next((k.value for c in sp for k in c.keywords if k.arg == "V"), None)
+    okv = vkw is not None and W.cnorm(f.node, vkw, sp[0]) in (f"{p}.B - {{EPSILON}}", f"{p}.B.difference({{EPSILON}})", f"{p}.B - {{ε}}")
+    r.add(f, sp[0] if sp else f.node, okv, "" if okv else f"the composed grammar's vocabulary must be `{p}.B - {{EPSILON}}`: with ε in V the ε symbol becomes a terminal "
+          f"of the result (truncation and a second composition then count it)", slots=dict(V=norm(vkw) if vkw is not None else None))
     g = P.func("fst.py::FST.__matmul__")
     r.looked_at(g)
     o = g.params[1]
@@ -405,7 +411,7 @@ def rule_compose_coerce(P):
     ok = norm(found.value) == f"{o} @ self.T"
     r.add(g, found, ok, "" if ok else f"`{first_line(found)}`: fst @ cfg must be cfg @ fst.T with the full transposed machine "
           f"(ε-labelled arcs included)", slots=dict(returned=norm(found.value)))
-    r.min_instances = 3
+    r.min_instances = 4
     return r
 
 
@@ -618,5 +624,106 @@ def rule_zview(P):
     rets = _returns(g)
     ok = len(rets) == 1 and norm(rets[0].value) == "self.reverse.accessible()"
     r.add(g, rets[0] if rets else g.node, ok, "" if ok else "co_accessible is not accessible() of the reversed machine")
+    r.min_instances = 2
+    return r
+
+
+# ---------------------------------------------------------------- PIPE-FWDBWD / PIPE-MIN / VIEW-FILTER / FACTOR-FROMSTRINGS
+
+
+def rule_fwdbwd(P):
+    r = RuleResult("PIPE-FWDBWD", "WFSA.forward = G.solve_left(start) and WFSA.backward = G.solve_right(stop) on the label-free graph G "
+                   "(the reversed machine's forward weights multiply path weights in the opposite order); total_weight sums "
+                   "start[i]·backward[i]", "forward/backward weights are the left/right solutions")
+    for name, solver, vec in (("forward", "solve_left", "start"), ("backward", "solve_right", "stop")):
+        f = P.func(f"wfsa/base.py::WFSA.{name}")
+        r.looked_at(f)
+        rets = _returns(f)
+        ok = len(rets) == 1 and W.cnorm(f.node, rets[0].value, rets[0]) == f"self.G.{solver}(self.{vec})"
+        r.add(f, rets[0] if rets else f.node, ok, "" if ok else f"{name} must be self.G.{solver}(self.{vec}); "
+              f"`{norm(rets[0].value) if rets else ''}` computes it another way (wrong product order for non-commutative weights)")
+    t = P.func("wfsa/base.py::WFSA.total_weight")
+    r.looked_at(t)
+    rets = _returns(t)
+    ok = False
+    if len(rets) == 1 and isinstance(rets[0].value, ast.Call) and W.call_name(rets[0].value) == "sum":
+        g = rets[0].value.args[0]
+        if isinstance(g, ast.GeneratorExp):
+            num, den = W.cfactors(t.node, g.elt, rets[0])
+            i = norm(g.generators[0].target)
+            ok = num == sorted([f"self.start[{i}]", f"self.backward[{i}]"]) and not den and norm(g.generators[0].iter) in ("self.start", "self.states", "self.start.keys()")
+    r.add(t, rets[0] if rets else t.node, ok, "" if ok else "total_weight must be Σ_i start[i]·backward[i]")
+    r.min_instances = 3
+    return r
+
+
+def rule_pipe_min(P):
+    r = RuleResult("PIPE-MIN", "Simple.min is the backward conjugate of the forward conjugate (forward-minimal then backward-minimal "
+                   "= minimal, Kiefer Prop. 3.4/3.5): no early exit when the first step does not shrink the automaton; WFSA.min "
+                   "delegates to it", "minimisation applies both conjugations")
+    f = P.func("wfsa/field_wfsa.py::Simple.min")
+    r.looked_at(f)
+    rets = _returns(f)
+    ok = len(rets) == 1 and W.cnorm(f.node, rets[0].value, rets[0]) == "self.forward_conjugate().backward_conjugate()"
+    r.add(f, rets[0] if len(rets) == 1 else f.node, ok, "" if ok else f"Simple.min has {len(rets)} return(s); it must be exactly "
+          f"self.forward_conjugate().backward_conjugate() on every path")
+    g = P.func("wfsa/field_wfsa.py::Simple.backward_conjugate")
+    r.looked_at(g)
+    rets = _returns(g)
+    ok = len(rets) == 1 and W.cnorm(g.node, rets[0].value, rets[0]) == "self.reverse.forward_conjugate().reverse"
+    r.add(g, rets[0] if rets else g.node, ok, "" if ok else "backward_conjugate must be reverse∘forward_conjugate∘reverse")
+    h = P.func("wfsa/field_wfsa.py::WFSA.min")
+    r.looked_at(h)
+    rets = _returns(h)
+    ok = len(rets) == 1 and W.cnorm(h.node, rets[0].value, rets[0]) == "self.simple.min.to_wfsa()"
+    r.add(h, rets[0] if rets else h.node, ok, "" if ok else "WFSA.min must be self.simple.min.to_wfsa()")
+    r.min_instances = 3
+    return r
+
+
+def rule_view_filter(P):
+    r = RuleResult("VIEW-FILTER", "the views I / F of an automaton yield exactly the (state, weight) entries of start / stop whose weight "
+                   "is not the semiring zero: every consumer (trim, reverse, rename, composition, to_cfg) relies on the views to skip "
+                   "zero entries, which set_I(q, zero), cancellation and push leave in the charts", "I/F are the non-zero views")
+    for name, chart in (("I", "start"), ("F", "stop")):
+        f = P.func(f"wfsa/base.py::WFSA.{name}")
+        r.looked_at(f)
+        ys = [n for n in walk_live(f.node) if isinstance(n, ast.Yield)]
+        if len(ys) != 1:
+            r.undecided(f, f.node, f"view {name}: expected a single yield")
+            continue
+        y = ys[0]
+        lp = next((a for a in ancestors(y) if isinstance(a, ast.For)), None)
+        facts = W.cfacts(f.node, y)
+        w = norm(lp.target.elts[1]) if lp is not None and isinstance(lp.target, ast.Tuple) else None
+        qv = norm(lp.target.elts[0]) if lp is not None and isinstance(lp.target, ast.Tuple) else None
+        cands = {f"self.R.zero != {w}", f"{w} != self.R.zero", f"self.R.zero != self.{chart}[{qv}]", f"self.{chart}[{qv}] != self.R.zero"}
+        ok = lp is not None and W.citer(f.node, lp) == f"self.{chart}.items()" and w is not None and bool(cands & facts)
+        r.add(f, y, ok, "" if ok else f"view {name} does not filter `!= self.R.zero` over self.{chart}.items()", slots=dict(facts=sorted(facts)))
+    r.min_instances = 2
+    return r
+
+
+def rule_fromstrings(P):
+    r = RuleResult("FACTOR-FROMSTRINGS", "from_string / from_strings name the state reached after reading a prefix by that prefix "
+                   "(xs[:i] → xs[:i+1]): this is what lets from_strings overlay several strings as a trie; naming states by position "
+                   "merges position i of every string", "string automata are tries over prefixes")
+    for name in ("from_string", "from_strings"):
+        f = P.func(f"wfsa/base.py::WFSA.{name}")
+        r.looked_at(f)
+        arcs = [n for n in walk_live(f.node) if isinstance(n, ast.Call) and W.call_name(n) in ("add_arc", "set_arc")]
+        if len(arcs) != 1:
+            r.undecided(f, f.node, f"{name}: expected one arc site")
+            continue
+        c = arcs[0]
+        lp = next((a for a in ancestors(c) if isinstance(a, ast.For) and "range" in norm(a.iter)), None)
+        if lp is None:
+            r.undecided(f, c, f"{name}: position loop not found")
+            continue
+        i = norm(lp.target)
+        xs = norm(lp.iter).replace("range(len(", "").rstrip(")")
+        a0, a1, a2 = (W.cnorm(f.node, x, c) for x in c.args[:3])
+        ok = a0 == f"{xs}[:{i}]" and a1 == f"{xs}[{i}]" and a2 == f"{xs}[:{i} + 1]"
+        r.add(f, c, ok, "" if ok else f"`{first_line(c)}`: states must be the prefixes {xs}[:{i}] → {xs}[:{i} + 1]", slots=dict(src=a0, label=a1, dst=a2))
     r.min_instances = 2
     return r
